@@ -298,10 +298,19 @@ def c01_4e(cx):
     origin = r"MemoHeader::origin\(\$1\)$"
     derived = VariantIn(origin, {"Derived"}, desc="origin is Derived")
     nonprov = CallIs(r"MemoHeader::may_be_provisional$", False, [r"^\$1$"], desc="!self.may_be_provisional()")
-    edges_call = r"^function::maybe_changed_after::deep_verify_edges\(\$2, function::sync::ClaimGuard::<'me>::zalsa\(\$3\), \$1\.revisions, revision::AtomicRevision::load\(\$1\.verified_at\), function::memo::MemoHeader::origin\(\$1\)@Derived\.0, function::sync::ClaimGuard::<'me>::database_key_index\(\$3\)\)$"
+    edges_call = r"^function::maybe_changed_after::deep_verify_edges\(\$2, function::sync::ClaimGuard::<'me>::zalsa\(\$3\), \$1\.revisions, [^,]*(\([^()]*\))?, function::memo::MemoHeader::origin\(\$1\)@Derived\.0, function::sync::ClaimGuard::<'me>::database_key_index\(\$3\)\)$"
     ret_cases(cx, b, [(edges_call, [derived, nonprov], "deep_verify_edges(db, zalsa, &self.revisions, verified_at, edges, key)")], [r"^function::maybe_changed_after::VerifyResult::changed\(\)$", r"^VerifyResult::Changed\{\}$", r"^function::maybe_changed_after::VerifyResult::changed_if\(const:1\)$"], "deep_verify_memo",
               unknown_needs=([derived], "a result other than Changed is produced outside the Derived arm (Assigned / DerivedUntracked memos have no edges that could prove them unchanged)"))
     de = cx.one_call(b, r"^function::maybe_changed_after::deep_verify_edges$", "deep_verify_edges call")
+    # the revision the edges are compared with is the memo's own verified_at: anything newer (current revision)
+    # accepts stale memos (C01); the memo's changed_at (never newer than verified_at) is sound but re-executes a
+    # backdated query after every later unrelated write (C03)
+    since = cx.arg(de, 3)
+    if re.search(r"^\$1\.revisions\.changed_at$", since):
+        with cx.only("C03"):
+            cx.check(False, "edges are verified against the memo's verified_at (not its older changed_at: precision)", de, {"since": since}, key="since-verified-at")
+    else:
+        cx.flow(b, since, [r"^revision::AtomicRevision::load\(\$1\.verified_at\)$"], [r"current_revision", r"Revision::(max|start)"], "edges are verified against the memo's own verified_at", de)
     # not reached for Panic-strategy cycle participants
     eng = OnlyIf(cx.facts, b)
     panic = Cmp(r"^\$4$", "!=", r"CycleRecoveryStrategy::Panic", desc="strategy != Panic")
@@ -359,7 +368,7 @@ def c01_5(cx):
               [r"^function::maybe_changed_after::VerifyResult::changed\(\)$"], "deep_verify_edges")
 
 
-@ob("C01.6", ["C01", "C07"], also=["C03", "C12"], nec="'>=' re-executes readers of unchanged fields (C03); '<'/'<=' or a missing comparison hides a write from its readers (C01)", kind="ONLYIF both directions")
+@ob("C01.6", ["C01", "C07"], also=["C03", "C12", "C15", "C11"], nec="'>=' re-executes readers of unchanged fields (C03); '<'/'<=' or a missing comparison hides a write from its readers (C01)", kind="ONLYIF both directions")
 def c01_6(cx):
     """Leaf maybe_changed_after: input field and tracked field report Changed iff stored revision > revision; interned iff stored generation > requested generation; function (hot / after verify / after re-execution) Changed if changed_at > revision; changed_if(b) is Changed iff b."""
     ci = cx.fn(r"^function::maybe_changed_after::VerifyResult::changed_if$")
@@ -391,7 +400,9 @@ def c01_6(cx):
     for s in cx.some_calls(hot, r"VerifyResult::unchanged_for_memo$", 1, "unchanged_for_memo in hot path"):
         cx.only_if(hot, s, le, "hot: Unchanged only if changed_at <= revision")
         cx.only_if(hot, s, CallIs(r"ShallowUpdate::yes$", True), "hot: a verdict only for shallow-verified memos")
-        cx.only_if(hot, s, CallIs(r"MemoHeader::may_be_provisional$", False, [r"^\$1$"]), "hot: a verdict only for final memos")
+        with cx.only("C01", "C07", "C12", "C15"):
+            # a provisional (or poisoned) memo of an unfinished / failed cycle must never be answered from the hot path (C12, C15)
+            cx.only_if(hot, s, CallIs(r"MemoHeader::may_be_provisional$", False, [r"^\$1$"]), "hot: a verdict only for final memos")
     with cx.only("C03"):
         for s in cx.some_calls(hot, r"VerifyResult::changed$", 1, "changed in hot path"):
             cx.only_if(hot, s, gt, "hot: Changed only if changed_at > revision (precision)")
@@ -399,7 +410,9 @@ def c01_6(cx):
     oh = r"ErasedMemo::<'a>::header\(.*\)\.revisions\.changed_at$|header\(.*\)\.revisions\.changed_at$"
     for s in cx.some_calls(inner, r"VerifyResult::unchanged_for_memo$", 1, "unchanged_for_memo in cold inner"):
         cx.only_if(inner, s, Cmp(oh, "<=", r"^\$7$", desc="old changed_at <= revision"), "cold: Unchanged only if changed_at <= revision")
-        cx.only_if(inner, s, CallIs(MH + r"verify_memo$", True), "cold: Unchanged only after verify_memo")
+        with cx.only("C01", "C07", "C11"):
+            # verify_memo refreshes the memo's accumulated-inputs flag: the verdict (which carries that flag) is built after it (C11)
+            cx.only_if(inner, s, CallIs(MH + r"verify_memo$", True), "cold: Unchanged only after verify_memo")
     cold = cx.fn(F + r"maybe_changed_after::<impl function::IngredientImpl<C>>::maybe_changed_after_cold$")
     newc = r"execute\(.*\)\?\.header\.revisions\.changed_at$"
     for s in cx.some_calls(cold, r"VerifyResult::unchanged_for_memo$", 1, "unchanged_for_memo after re-execution"):
